@@ -29,17 +29,20 @@ class RequestStreamRequester(StreamHandler, DefaultPublisherSubscription, Reques
 
     def frame_received(self, frame: Frame):
         if isinstance(frame, PayloadFrame):
-            if frame.flags_next:
-                self._subscriber.on_next(payload_from_frame(frame),
-                                         is_complete=frame.flags_complete)
-            elif frame.flags_complete:
-                self._subscriber.on_complete()
-
-            if frame.flags_complete:
-                self._finish_stream()
+            try:
+                if frame.flags_next:
+                    self._subscriber.on_next(payload_from_frame(frame),
+                                             is_complete=frame.flags_complete)
+                elif frame.flags_complete:
+                    self._subscriber.on_complete()
+            finally:  # the stream has terminated even if the subscriber raises
+                if frame.flags_complete:
+                    self._finish_stream()
         elif isinstance(frame, ErrorFrame):
-            self._subscriber.on_error(error_frame_to_exception(frame))
-            self._finish_stream()
+            try:
+                self._subscriber.on_error(error_frame_to_exception(frame))
+            finally:
+                self._finish_stream()
 
     def _send_stream_request(self, payload: Payload):
         self.socket.send_request(to_request_stream_frame(
